@@ -89,6 +89,20 @@ Definition verdict_c01 (x : N * list record * list oentry) : N :=
   let prop := tlist_eqb (tsort (observed_triples os)) (tsort (spec_accepted origin rs [])) && forallb oweights_ok os in
   (if nontrivial rs then 10 else 0) + (if negb prop then 2 else if conform entry_samples_eqb ms os then 0 else 1).
 
+(* recordings with CONTEXT_SWITCH records: every accepted input sample appears exactly once on its (pid, tid) with weight 1 (the property allows
+   further samples there); conformance as before - in the model such records only touch the process / thread tables *)
+Definition triple_eqb (a b : triple) : bool :=
+  let '(a1, a2, a3) := a in let '(b1, b2, b3) := b in (a1 =? b1) && (a2 =? b2) && (a3 =? b3).
+Definition tcount (t : triple) (l : list triple) : nat := length (filter (triple_eqb t) l).
+Definition verdict_c01_sw (x : N * list record * list oentry) : N :=
+  let '(origin, rs, os) := x in
+  let ms := show (run origin rs) in
+  let acc := spec_accepted origin rs [] in
+  let obs := observed_triples os in
+  let prop := forallb (fun t => Nat.eqb (tcount t obs) (tcount t acc)) acc && forallb oweights_ok os in
+  (if nontrivial rs && existsb (fun r => match r with RSwitch _ _ => true | _ => false end) rs then 10 else 0) +
+  (if negb prop then 2 else if conform entry_samples_eqb ms os then 0 else 1).
+
 (* the same decision for runs with --reuse-threads (reuse = true: a sample may be merged into the entry of an earlier, exited process or
    thread, so only the multiset of times is compared) and / or --fold-recursive-prefix (entries and times as by default); these options are
    not modelled, so there is no conformance part *)
@@ -121,7 +135,7 @@ Fixpoint last_comm_clause (rs : list record) (os : list oentry) : bool :=
 Definition count_ids (pid tid : N) (rs : list record) : nat :=
   length (filter (fun r => match r with
                            | RFork p _ t _ _ => (p =? pid) && (t =? tid) | RExit p t _ => (p =? pid) && (t =? tid)
-                           | RComm p t _ _ _ => (p =? pid) && (t =? tid) | RSample p t _ => (p =? pid) && (t =? tid) | RMmap p t => (p =? pid) && (t =? tid) end) rs).
+                           | RComm p t _ _ _ => (p =? pid) && (t =? tid) | RSample p t _ => (p =? pid) && (t =? tid) | RMmap p t => (p =? pid) && (t =? tid) | RSwitch p t => (p =? pid) && (t =? tid) end) rs).
 (* (b) a non-main thread whose first record is its FORK and whose last is its EXIT, whose process's main thread neither exits nor execs in between,
        and whose tid is used by no other incarnation: its entry starts at the FORK time and ends at the EXIT time *)
 Fixpoint lifetimes_clause (origin : N) (before rs : list record) (os : list oentry) : bool :=
@@ -134,7 +148,7 @@ Fixpoint lifetimes_clause (origin : N) (before rs : list record) (os : list oent
              (* nothing else about this tid anywhere else; the main thread does not exec (its EXIT before the thread's own EXIT is the shape of finding F-C17) *)
              let idx_ok := negb (existsb (fun r => match r with RComm p t _ true _ => (p =? pid) && (t =? p) | _ => false end) rest)
                            && negb (existsb (fun r => match r with RFork p _ t _ _ => (t =? tid) && negb (p =? pid) | RSample p t _ => (t =? tid) && negb (p =? pid)
-                                                                   | RComm p t _ _ _ => (t =? tid) && negb (p =? pid) | RExit p t _ => (t =? tid) && negb (p =? pid) | RMmap p t => (t =? tid) && negb (p =? pid) end) (before ++ rest))
+                                                                   | RComm p t _ _ _ => (t =? tid) && negb (p =? pid) | RExit p t _ => (t =? tid) && negb (p =? pid) | RMmap p t => (t =? tid) && negb (p =? pid) | RSwitch p t => (t =? tid) && negb (p =? pid) end) (before ++ rest))
                            && Nat.eqb (length (filter (fun r => match r with RFork p _ t _ _ => (p =? pid) && (t =? tid) | _ => false end) rest)) 0
                            && Nat.eqb (length (filter (fun r => match r with RExit p t _ => (p =? pid) && (t =? tid) | _ => false end) rest)) 1 in
              if idx_ok then
@@ -180,9 +194,10 @@ Fixpoint fork_inherit_clause (before rs : list record) (os : list oentry) : bool
                                                    | RExit p t _ => (p =? pid) && (t =? p)
                                                    | RSample p t _ => (t =? tid) && negb (p =? pid)
                                                    | RMmap p t => (t =? tid) && negb (p =? pid)
+                                                   | RSwitch p t => (t =? tid) && negb (p =? pid)
                                                    end) rest)
                           && negb (existsb (fun r => match r with RFork p _ t _ _ => t =? tid | RSample p t _ => t =? tid | RComm p t _ _ _ => t =? tid
-                                                                  | RExit p t _ => t =? tid | RMmap p t => t =? tid end) before) in
+                                                                  | RExit p t _ => t =? tid | RMmap p t => t =? tid | RSwitch p t => t =? tid end) before) in
              if alone then existsb (fun o : oentry => let '(p, t, _, tn, _, _, _, _, _, _, _) := o in (fst p =? pid) && (fst t =? tid) && tname_eqb tn (TNGiven name)) os
              else true
          | None => true
